@@ -27,7 +27,7 @@ ASSUMPTIONS = ['the documentation tables of the tree under test are the specific
                'propagate_fft refusing tilt-carrying wavefronts (NotImplementedError) is C09\'s rule, not a table entry']
 EXHAUSTIVE = True
 PLAN = {'quick': {'gen': 8}, 'thorough': {'gen': 16, 'tests': 1}}
-REQUIRED_BUCKETS = ['propagate:field-less', 'other-process', 'form:shared-plane-object', 'form:scalar+sampling', 'form:other-focal', 'form:no-focal', 'form:reassigned', 'typed-tilt-class', 'start:none+focal', 'form:mismatch', 'copy-step', 'form:scalar', 'form:disjoint', 'start:none', 'start:pupil', 'start:image', 'len:1', 'len:2', 'len:3', 'random-long',
+REQUIRED_BUCKETS = ['sampling:decimal-ratio', 'sampling:decimal-ratio:one-ulp-off', 'propagate:field-less', 'other-process', 'form:shared-plane-object', 'form:scalar+sampling', 'form:other-focal', 'form:no-focal', 'form:reassigned', 'typed-tilt-class', 'start:none+focal', 'form:mismatch', 'copy-step', 'form:scalar', 'form:disjoint', 'start:none', 'start:pupil', 'start:image', 'len:1', 'len:2', 'len:3', 'random-long',
                     'cell:allowed', 'cell:refused', 'propagate:allowed', 'propagate:refused']
 REQUIRED_ANCHORS = ['anchor:_can_mul_ptype', 'anchor:_mul_result_ptype', 'anchor:_propagate_ptype', 'anchor:Image.multiply',
                     'anchor:PType.__eq__']
@@ -410,6 +410,34 @@ def workload(ctx, lentil):
                     run_program(ctx, lentil, start, prog, traces, forms=['shared'] * L)
     if ctx.shard == 0:
         other_process(ctx, lentil, traces)
+    # the sampling a propagation hands its result is a COMPUTED number (pixelscale / oversample): a plane that carries the same
+    # sampling as the number a user types (5 um pixels oversampled 5 times: 1e-6) is compatible with it
+    k = 0
+    for kk in range(1, 61):
+        for nn in range(2, 11):
+            if kk % nn:
+                continue
+            k += 1
+            if k % ctx.nshards != ctx.shard:
+                continue
+            ctx.case({'sampling-decimal-ratio': [kk, nn]}, ['sampling:decimal-ratio'])
+            typed = (kk // nn) * 1e-6
+            try:
+                w0 = lentil.Wavefront(WL) * lentil.Pupil(amplitude=np.ones((4, 4)), pixelscale=DX, focal_length=Z)
+                out = lentil.propagate_dft(w0, pixelscale=kk * 1e-6, shape=3, oversample=nn)
+                exact = float(np.asarray(out.pixelscale, float)[0]) == typed
+                ctx.bucket('sampling:decimal-ratio:' + ('exact' if exact else 'one-ulp-off'))
+                for pl in (lentil.Image(pixelscale=typed), lentil.Image(amplitude=np.ones((3 * nn, 3 * nn)), pixelscale=(typed, typed))):
+                    try:
+                        res = out * pl
+                        ctx.check(str(res.ptype) == 'image', 'trace=automaton', 'step|sampling-decimal-ratio|type',
+                                  'image wavefront times image plane at the same sampling is not an image', {'k': kk, 'n': nn})
+                    except Exception as e:
+                        ctx.check(False, 'trace=automaton', f'step|sampling-decimal-ratio|raises={type(e).__name__}',
+                                  f'a plane carrying the sampling {typed!r} is refused by the wavefront that propagate_dft(pixelscale={kk}e-6, '
+                                  f'oversample={nn}) returned (sampling {np.asarray(out.pixelscale).tolist()!r}): {e}', {'k': kk, 'n': nn})
+            except Exception as e:
+                ctx.check(False, 'trace=automaton', f'sampling-decimal-ratio|raises={type(e).__name__}', str(e), {'k': kk, 'n': nn})
     # copies of the wavefront (deepcopy / pickle round trip) anywhere in a program
     k = 0
     for start in ('none', 'pupil', 'image'):
